@@ -26,6 +26,11 @@ TEXTS = {
   "ref": "DESIGN.md 4 C08", "technique": TLA,
   "note": "durability below the process (torn writes, fsync) is out of scope; known findings KF-C09-rollback-number, KF-C16-txheight",
  },
+ "C07": {
+  "level": "CheckPoints.tla transcribes CheckPoints::add_check_points and finalize_check_points (clean / ban, required-th smallest length, per-index majority with ties, retain) as operators over plain values.  MC_CheckPoints explores exhaustively (3-4 peers, every quorum size 1..3, liars that send every message shape and value, connects, disconnects, loss of the prove state, restarts, up to 4 check points) AppendOnly, Quorum (everything that becomes final is backed by the quorum of currently proven peers' vectors since the previous final one), WrongNeverFinal and NotBlocked (fewer liars than the quorum) and ContradictorsBanned.  The same operators are the RecvCheckPoints / FinalizeStep actions of the trace specification: on the real client, drivers with 1-5 peers, max_outbound 1-5, honest and lying (colluding) vectors of different lengths and start indices, malformed / unsolicited BlockFilterCheckPoints, restarts and random orders of messages, filter ticks and refresh ticks must produce exactly the specified vectors, bans, requests and final check points (read back from RocksDB, truncated at MAX_CHECK_POINT_INDEX) at every event; CpAppendOnly, CpQuorum, CpTrue are checked on every step (crash steps included) and CpNotBlocked at quiescence.",
+  "ref": "DESIGN.md 4 C07", "technique": TLA,
+  "note": "latest-block-filter-hash quorum (the analogue above the last check point) is specified in FilterSync.tla (LatestQuorum) and exercised under C06",
+ },
  "C09": {
   "level": FS + "SetScripts is specified for all / partial / delete incl. empty lists, duplicates and the rewind rule; random command sequences are issued at every point of an ongoing sync (before/after filter batches, matched blocks pending or partly downloaded, restarts); every post-state must equal the specified script set / filtered number / cleared records, and ScriptsNumberHonest (history variable startOf) is evaluated on every state: no script is ever reported filtered beyond a canonical block that creates one of its cells and is not indexed.",
   "ref": "DESIGN.md 4 C09", "technique": TLA,
